@@ -27,7 +27,7 @@ const RULE: &str = "packets: for each of the 41 packet types of handshake/status
 field's boundary pool (other fields typical) plus random combinations of pool values; a packet case is non-trivial when the type \
 has fields, and distinct by (type, per-field class: string length bucket 0 / <128 / <16384 / longer and widest UTF-8 sequence, \
 exact integer below 65536 else sign and bit length, boolean, none/some, nested text-component shape); unit-struct placeholder \
-packets are trivial. enums: distinct by (field, ordinal). VarInt/VarLong: conservatively distinct by unsigned bit length only \
+packets are trivial. enums: distinct by (field, ordinal; ordinals of magnitude >= 65536 by sign and bit length). VarInt/VarLong: conservatively distinct by unsigned bit length only \
 (33 + 65 classes) although every evaluated value is a different number; 'observed' has the number of values evaluated.";
 
 enum Item {
@@ -38,6 +38,7 @@ enum Item {
 
 fn run_item(base: &Report, cli: &Cli, cfg: &Cfg, idx: usize, item: &Item) -> Report {
     let mut rep = base.fork();
+    let mut cx = Ctx::new(&mut rep, false);
     let mut rng = Rng::stream(cli.seed, 0x1000 + idx as u64);
     match item {
         Item::Sweep(p) => {
@@ -46,28 +47,29 @@ fn run_item(base: &Report, cli: &Cli, cfg: &Cfg, idx: usize, item: &Item) -> Rep
             let mut pick = Rng::stream(cli.seed, 0x5000_0000 + idx as u64);
             cases::sweep_cases(p, &spec, cfg, &mut pick, |case| {
                 if trivial {
-                    rep.eval(None);
+                    cx.rep.eval(None);
                 } else {
-                    rep.eval(Some(&cases::case_class(&case)));
+                    cx.rep.eval(Some(&cases::case_class(&case)));
                 }
-                packets::run_case(&mut Ctx { rep: &mut rep, sample: false }, &case);
+                packets::run_case(&mut cx, &case);
             });
         }
         Item::Random(p, n) => {
             let spec = cases::spec_for(p, &mut rng, cfg);
             for _ in 0..*n {
                 let case = cases::random_case(p, &spec, &mut rng);
-                rep.eval(Some(&cases::case_class(&case)));
-                packets::run_case(&mut Ctx { rep: &mut rep, sample: false }, &case);
+                cx.rep.eval(Some(&cases::case_class(&case)));
+                packets::run_case(&mut cx, &case);
             }
         }
         Item::Enums => {
             for case in cases::enum_cases(&mut rng, cfg, packets::ENUM_FIELDS) {
-                rep.eval(Some(&cases::case_class(&case)));
-                packets::run_case(&mut Ctx { rep: &mut rep, sample: false }, &case);
+                cx.rep.eval(Some(&cases::case_class(&case)));
+                packets::run_case(&mut cx, &case);
             }
         }
     }
+    cx.flush();
     rep
 }
 
@@ -249,7 +251,9 @@ fn run_any(report: &mut Report, case: &Value, sample: bool) {
         }
         _ => {
             report.eval(Some(&cases::case_class(case)));
-            packets::run_case(&mut Ctx { rep: report, sample }, case);
+            let mut cx = Ctx::new(report, sample);
+            packets::run_case(&mut cx, case);
+            cx.flush();
         }
     }
 }
